@@ -348,6 +348,94 @@ func run(c *Ctx) {
 			c.Sample(map[string]interface{}{"logger": name, "ops": progs.DescribeOps(ops), "first_run_pool_allocs": []int64{e1, a1}, "allocs_per_run": allocs})
 		}
 	}
+	// directed: the global encoding settings x slice lengths ("all argument values": a slice method must not
+	// start allocating at some length or under some time / duration / float format)
+	{
+		lens := []int{0, 1, 3, 4, 5, 8, 9, 17}
+		type cfg struct {
+			tf   string
+			dInt bool
+			unit time.Duration
+			prec int
+		}
+		var cfgs []cfg
+		for _, tf := range []string{time.RFC3339, time.RFC3339Nano, zerolog.TimeFormatUnix, zerolog.TimeFormatUnixMs, zerolog.TimeFormatUnixMicro, zerolog.TimeFormatUnixNano} {
+			cfgs = append(cfgs, cfg{tf, false, time.Millisecond, -1}, cfg{tf, true, time.Second, 3})
+		}
+		runs := 0
+		for _, cf := range cfgs {
+			zerolog.TimeFieldFormat, zerolog.DurationFieldInteger, zerolog.DurationFieldUnit, zerolog.FloatingPointPrecision = cf.tf, cf.dInt, cf.unit, cf.prec
+			for _, n := range lens {
+				ts := make([]time.Time, n)
+				ds := make([]time.Duration, n)
+				fl := make([]float64, n)
+				is := make([]int64, n)
+				ss := make([]string, n)
+				for i := 0; i < n; i++ {
+					ts[i] = now.Add(time.Duration(i) * 1234567891)
+					ds[i] = time.Duration(i+1) * 1234567
+					fl[i] = float64(i) * 1.25e-7
+					is[i] = int64(i) << 40
+					ss[i] = "s"
+				}
+				for _, name := range []string{"plain", "context", "filtered"} {
+					var l zerolog.Logger
+					switch name {
+					case "plain":
+						l = zerolog.New(io.Discard)
+					case "context":
+						l = zerolog.New(io.Discard).With().Times("ct", ts).Durs("cd", ds).Timestamp().Logger()
+					default:
+						l = zerolog.New(io.Discard).Level(zerolog.Disabled)
+					}
+					chain := func() {
+						l.Info().Time("t", now).Times("ts", ts).Dur("d", 1500*time.Microsecond).Durs("ds", ds).TimeDiff("td", now, now.Add(-time.Second)).
+							Floats64("fl", fl).Ints64("is", is).Strs("ss", ss).Timestamp().Msg("m")
+					}
+					chain()
+					runs++
+					if a := testing.AllocsPerRun(50, chain); a != 0 {
+						c.Violate(Violation{Key: "fast-path-allocates", Monitor: "allocs-per-run-settings", Desc: fmt.Sprintf("%s logger (%s build): %.1f allocs/op for Time/Times/Dur/Durs/TimeDiff/Floats64/Ints64/Strs/Timestamp with slices of %d elements under TimeFieldFormat=%q DurationFieldInteger=%v DurationFieldUnit=%v FloatingPointPrecision=%d", name, variant, a, n, cf.tf, cf.dInt, cf.unit, cf.prec),
+							Case: map[string]interface{}{"logger": name, "slice_len": n, "TimeFieldFormat": cf.tf, "DurationFieldInteger": cf.dInt, "DurationFieldUnit": cf.unit.String(), "FloatingPointPrecision": cf.prec, "build": variant}, Observed: a, Expected: 0})
+					}
+				}
+			}
+		}
+		restore()
+		restore = s.Apply()
+		zerolog.TimestampFunc = func() time.Time { return now }
+		c.Res.ExtraCoverage["settings_x_lengths_chains"] = runs
+	}
+	// directed: a destination that fails: the event is returned to its pool all the same (no allocation on the
+	// following events; the error goes to a handler that does nothing)
+	{
+		oldH := zerolog.ErrorHandler
+		zerolog.ErrorHandler = func(error) {}
+		for _, every := range []int{1, 2, 3} {
+			fw := &failEvery{every: every}
+			l := zerolog.New(fw)
+			chain := func() { l.Info().Str("k", "v").Int("n", 1).Msg("m") }
+			for i := 0; i < 10; i++ {
+				chain()
+			}
+			zerolog.VerifResetPools()
+			chain()
+			e1, a1 := zerolog.VerifPoolNews()
+			for k := 0; k < 12; k++ {
+				chain()
+			}
+			e2, a2 := zerolog.VerifPoolNews()
+			if e2 != e1 || a2 != a1 {
+				c.Violate(Violation{Key: "pool-leak", Monitor: "pool-steady-state-failing-writer", Desc: fmt.Sprintf("destination failing every %d. write: each run still allocates pooled objects: events +%d arrays +%d over 12 runs (the event is not returned to the pool when the write fails)", every, e2-e1, a2-a1),
+					Case: map[string]interface{}{"writer_fails_every": every, "build": variant}, Observed: []int64{e2 - e1, a2 - a1}, Expected: []int64{0, 0}})
+			}
+			if a := testing.AllocsPerRun(60, chain); a != 0 {
+				c.Violate(Violation{Key: "fast-path-allocates", Monitor: "allocs-per-run-failing-writer", Desc: fmt.Sprintf("destination failing every %d. write (ErrorHandler set to a no-op): %.1f allocs/op", every, a),
+					Case: map[string]interface{}{"writer_fails_every": every, "build": variant}, Observed: a, Expected: 0})
+			}
+		}
+		zerolog.ErrorHandler = oldH
+	}
 	// corpus: the two fixed leaks (F10, F12)
 	dis := zerolog.New(io.Discard).Level(zerolog.Disabled)
 	en := zerolog.New(io.Discard)
@@ -362,4 +450,16 @@ func run(c *Ctx) {
 		}
 		c.Count("corpus "+name, true)
 	}
+}
+
+type failEvery struct{ every, n int }
+
+var errFailEvery = fmt.Errorf("verif: destination failed")
+
+func (w *failEvery) Write(p []byte) (int, error) {
+	w.n++
+	if w.n%w.every == 0 {
+		return 0, errFailEvery
+	}
+	return len(p), nil
 }
